@@ -50,7 +50,7 @@ def family():
             v: int = 0
 
         class M0(State):
-            v: int = 0
+            v: int = 1  # (a default that is NOT neutral for the sum/concat merges: nothing may be folded in that was not recorded)
 
         class M1(State):
             items: Sequence[int] = ()
@@ -111,7 +111,8 @@ class Frame:
                  "tasks", "body_exc", "body_ended", "exit_returned", "child_failed", "callback", "metrics_obj",
                  "registered_seq", "body_end_seq", "completion_seq", "completion_count", "children", "records",
                  "disposables", "body_started", "left", "enter_failed", "root", "eff_logger", "eff_trace",
-                 "completion_obs", "exit_seq", "parent_completed_at_registration", "entered", "actor")
+                 "completion_obs", "exit_seq", "parent_completed_at_registration", "entered", "actor", "completion_act",
+                 "completion_raised")
 
     def __init__(self, kind, uid):
         self.kind = kind
@@ -137,6 +138,8 @@ class Frame:
         self.disposables = []
         self.parent_scope = None
         self.entered = False
+        self.completion_act = 0
+        self.completion_raised = None
 
 
 class Actor:
@@ -222,6 +225,9 @@ class DispDouble:
         sim = self.eng.sim
         self.exit_calls.append((et, ev, sim.seq))
         sim.event("d-exit", self.uid)
+        if self.spec.get("exit_spawns"):
+            # cleanup starts a task (e.g. a final flush): the scope's group is still current, so the scope waits for it
+            self.eng.spawn_from_double(self, held=self.spec["exit_spawns"] == 2, when="exit")
         if self.spec["exit_pause"]:
             await sim.pause(f"dx{self.uid}")
         if self.spec["exit_raise"]:
@@ -254,11 +260,23 @@ class DispObj:
     def __hash__(self):
         return 7 if self.use.spec.get("eq_group") else id(self)
 
-    async def __aenter__(self):
-        return await self.use.__aenter__()
+    def __aenter__(self):
+        coro = self.use.__aenter__()
+        return PlainAwaitable(coro) if self.use.spec.get("awaitable") else coro
 
-    async def __aexit__(self, et, ev, tb):
-        return await self.use.__aexit__(et, ev, tb)
+    def __aexit__(self, et, ev, tb):
+        coro = self.use.__aexit__(et, ev, tb)
+        return PlainAwaitable(coro) if self.use.spec.get("awaitable") else coro
+
+
+class PlainAwaitable:
+    """An awaitable that is not a coroutine (what e.g. ``asyncio.shield(...)`` or a hand-written __await__ gives)."""
+
+    def __init__(self, coro):
+        self.coro = coro
+
+    def __await__(self):
+        return self.coro.__await__()
 
 
 def only_injected(exc) -> bool:
@@ -319,7 +337,7 @@ def _cfg_for(pid: str, profile: str) -> dict:
         c.update(disposables=2, lookup=True, max_blocks=14, max_depth=5, prebuilt=1)
     elif pid == "C02":
         w.update(probe=1, scope=5, updated=2, pause=2, raise_=2, try_=2, spawn=1)
-        c.update(disposables=1, restore=True, owner_probe=True, spawn_fail=1, spawn_gate=(2, 1, 1), prebuilt=1)
+        c.update(disposables=1, restore=True, owner_probe=True, spawn_fail=1, spawn_gate=(2, 1, 1), prebuilt=1, completion=1)
         if profile in ("disp", "disp-sweep"):
             c.update(disposables=3, disp_faults=2)
         if profile in ("sweep", "disp-sweep", "cancel"):
@@ -350,7 +368,7 @@ def _cfg_for(pid: str, profile: str) -> dict:
     elif pid == "C09":
         w.update(scope=6, spawn=3, pause=3, updated=1)
         c.update(completion=3, completion_rules=True, spawn_via_loop=2, late_children=1, spawn_gate=(2, 2, 0),
-                 max_blocks=6, top_scope="mostly", tick=1, trace=1, logger=1)
+                 max_blocks=6, top_scope="mostly", tick=1, trace=1, logger=1, prebuilt=1)
         if profile == "faults":
             # every exit path: body raise, failing children, failing disposables, one external cancel
             w.update(raise_=2, try_=2)
@@ -358,11 +376,11 @@ def _cfg_for(pid: str, profile: str) -> dict:
     elif pid == "C10":
         w.update(scope=4, spawn=2, record=6, pause=2, updated=1)
         c.update(completion=3, metrics_rules=True, spawn_via_loop=1, spawn_gate=(2, 1, 0), max_blocks=6, tick=1,
-                 disposables=2, disp_pause=2, p_async=6)
+                 disposables=2, disp_pause=2, p_async=6, prebuilt=1)
     elif pid == "C19":
         w.update(scope=5, log=6, spawn=2, pause=1, updated=1)
         c.update(logger=1, trace=1, names=len(NAMES), log_rules=True, completion=1, spawn_gate=(2, 1, 0),
-                 spawn_via_loop=1)
+                 spawn_via_loop=1, prebuilt=1)
     return c
 
 
@@ -429,6 +447,11 @@ class Gen:
             if c["w"]["spawn"] and self.actors < c["max_actors"] and s.chance(1, 8, "enter-spawns"):
                 self.actors += 1
                 d["enter_spawns"] = 1 + s.draw(2, "enter-spawn-gate")
+            if c["w"]["spawn"] and self.actors < c["max_actors"] and s.chance(1, 8, "exit-spawns"):
+                self.actors += 1
+                d["exit_spawns"] = 1 + s.draw(2, "exit-spawn-gate")
+            # __aenter__/__aexit__ need not be coroutine functions: any awaitable is a legal return value
+            d["awaitable"] = int(s.chance(1, 6, "plain-awaitable"))
             out.append(d)
         return out
 
@@ -463,6 +486,9 @@ class Gen:
                 spec["completion"] = 1 + s.draw(2, "completion")
             else:
                 spec["completion"] = s.draw(3, "completion")
+            if spec["completion"] and s.chance(1, 5, "completion-act"):
+                # the callback is user code: it may fail, and it may use the library (open a scope, log, read state)
+                spec["completion_act"] = 1 + s.draw(2, "which-act")
         if c["prebuilt"] and s.chance(1, 6, "prebuilt"):
             spec["prebuilt"] = 1  # the scope object is created before the enclosing block is entered
         body = self.block(depth + 1, in_sync or not is_async)
@@ -484,7 +510,10 @@ class Gen:
                 ops.append(self.scope(depth, in_sync))
             elif k == "updated":
                 self.blocks += 1
-                ops.append(["updated", self.states(), self.block(depth + 1, in_sync)])
+                sts = self.states()
+                # the update object may be created before the enclosing block is entered (hoisted), and entered inside it
+                flags = {"prebuilt": 1} if (c["prebuilt"] and s.chance(1, 6, "prebuilt-update")) else {}
+                ops.append(["updated", sts, self.block(depth + 1, in_sync), flags])
             elif k == "spawn":
                 if self.actors >= c["max_actors"]:
                     continue
@@ -519,7 +548,8 @@ class Gen:
                 if c["w"]["check_cancel"] and s.chance(2, 3, "then-check"):
                     ops.append(["check_cancel"])
             elif k == "check_cancel":
-                ops.append(["check_cancel"])
+                # now and then the check is made by blocking code running in a worker thread (there is no task there)
+                ops.append(["check_cancel_thread"] if s.chance(1, 6, "check-in-thread") else ["check_cancel"])
             elif k == "try_":
                 self.blocks += 1
                 body = self.block(depth + 1, in_sync)
@@ -676,8 +706,11 @@ class Engine:
             mine = [st for d in inner.disposables for st in d.states if type(st) is self.fam["types"][ti]] if inner.kind == "scope" else []
             if not mine:
                 return
-            if ans[0] != "inst" or not any(ans[1] is c for c in inner.states.get(ti, ())):
-                sim.fail("disposable-state-invisible", f"{where}: disposables of the scope yielded {mine!r} but ctx.state({name}) gave {ans[1]!r} ({ans[0]})")
+            if ans[0] != "inst" or not any(ans[1] is c for c in mine):
+                # (also when the scope was given a state of the same type explicitly: what the disposables yield is visible)
+                hidden = ans[0] == "inst" and any(ans[1] is c for c in inner.states.get(ti, ()))
+                sim.fail("disposable-state-invisible", f"{where}: disposables of the scope yielded {mine!r} but ctx.state({name}) gave {ans[1]!r} ({ans[0]})",
+                         **({"hidden_by": "explicit-state"} if hidden else {}))
             return
         if cands:
             if ans[0] != "inst" or not any(ans[1] is c for c in cands):
@@ -796,6 +829,8 @@ class Engine:
                 self.op_cancel_self(actor)
             elif kind == "check_cancel":
                 self.op_check_cancel(actor)
+            elif kind == "check_cancel_thread":
+                self.op_check_cancel_thread(actor)
             elif kind == "try":
                 await self.op_try(actor, op)
             if cfg["probe_each"]:
@@ -817,6 +852,7 @@ class Engine:
         f.logger = self.loggers[spec["logger"]] if spec["logger"] is not None else None
         f.trace = (("trace-%d-{}", "t%2F-{}", "trace-{}")[spec["trace"] % 3]).format(f.uid) if spec["trace"] is not None else None
         f.callback = spec["completion"]
+        f.completion_act = spec.get("completion_act", 0)
         self.frames.append(f)
         self.all_frames.append(f)
         return f
@@ -837,6 +873,24 @@ class Engine:
                     raise
                 except BaseException as exc:  # noqa: BLE001
                     f.completion_obs = {"error": exc}
+            if f.completion_act == 2:
+                from haiway import ctx
+                sim.stats["completion_callback_used_the_library"] += 1
+                try:
+                    with ctx.scope("in-completion"):
+                        ctx.log_info("from a completion callback")
+                        try:
+                            ctx.state(eng.fam["types"][0])
+                        except Exception:  # noqa: BLE001 - whatever state is visible there is not specified
+                            pass
+                except SimStop:
+                    raise
+                except BaseException as exc:  # noqa: BLE001
+                    sim.fail("completion-callback-failed", f"a scope opened inside the completion callback of scope #{f.uid} failed with {exc!r}")
+            elif f.completion_act == 1:
+                sim.stats["fault:completion_callback_raises"] += 1
+                f.completion_raised = Injected(("completion", f.uid))
+                raise f.completion_raised
 
         if f.callback == 1:
             def completion(metrics):
@@ -927,6 +981,18 @@ class Engine:
             if child[0] == "scope" and child[1].get("prebuilt"):
                 self.prebuilt[id(child)] = self.prepare_scope(actor, child)
                 self.sim.stats["scope_object_prepared_outside_its_parent"] += 1
+            elif child[0] == "updated" and len(child) > 3 and child[3].get("prebuilt"):
+                self.prebuilt[id(child)] = self.prepare_updated(actor, child)
+                self.sim.stats["update_object_prepared_outside_its_parent"] += 1
+
+    def prepare_updated(self, actor, op):
+        from haiway import ctx
+        f = Frame("updated", self.next_uid())
+        self.all_frames.append(f)
+        for ti, v in op[1]:
+            f.states.setdefault(ti, []).append(make_state(ti, v))
+        states = [x for lst in f.states.values() for x in lst]
+        return f, ctx.updated(*states)
 
     async def op_scope(self, actor, op):
         sim = self.sim
@@ -1042,6 +1108,12 @@ class Engine:
                                  f"{'body failed with ' + describe_exc(f.body_exc) if f.body_exc is not None else ('could not be entered' if entry_failed else 'was cancelled while being left')}"
                                  f" but blocked child actor {child.aid} was awaited until its gate had to be forced",
                                  how="body-failed" if f.body_exc is not None else ("entry-failed" if entry_failed else "cancelled-in-exit"))
+        # ---- C07: a scope left by a cancellation leaves no task of its own running ------------------------
+        if cfg["cancel_rules"] and f.is_async and isinstance(left, asyncio.CancelledError):
+            for child in f.tasks:
+                if child.task is not None and not child.task.done():
+                    sim.fail("child-outlived-cancelled-scope", f"scope #{f.uid} was left by a cancellation but the task of actor {child.aid}, "
+                             f"spawned into it, is still running (it was neither awaited nor cancelled)")
         # ---- C08: exit errors must reach the caller -------------------------------------------------
         cancel_hit = (actor.cancel_landed is not None and f.registered_seq < actor.cancel_landed
                       and (not f.body_started or (f.body_end_seq is not None and actor.cancel_landed > f.body_end_seq)))
@@ -1060,6 +1132,11 @@ class Engine:
             if any(d.enter_exc is not None for d in f.disposables) and f.body_started:
                 sim.fail("body-ran-after-enter-failure", f"scope #{f.uid}: a disposable failed to enter but the body ran")
         # ---- C09: leaving must not fail because of bookkeeping ---------------------------------
+        if (cfg["completion_rules"] or cfg["restore"]) and left is not None:
+            leaked = [g for g in self.frames if g.completion_raised is not None and reachable(g.completion_raised, left)]
+            if leaked:
+                sim.fail("completion-error-leaked", f"leaving scope #{f.uid} raised {describe_exc(left)}: the error of the completion callback of "
+                         f"scope #{leaked[0].uid} (user code run after completion) came out of the block")
         if cfg["completion_rules"] and left is not None and left is not f.body_exc:
             if isinstance(left, AssertionError):
                 sim.fail("exit-assertion", f"leaving scope #{f.uid} raised {left!r} (completion bookkeeping; parent completed at "
@@ -1119,21 +1196,20 @@ class Engine:
         from haiway import ctx
         sim = self.sim
         cfg = self.cfg
-        _k, sts, body = op
+        _k, sts, body = op[:3]
         before = self.observe(actor) if cfg["restore"] else None
+        prepared = self.prebuilt.pop(id(op), None)
+        f, cm = prepared if prepared is not None else self.prepare_updated(actor, op)
+        if prepared is not None and actor.stack:
+            sim.nontrivial = True
         if cfg["prebuilt"]:
             self.prebuild_children(actor, body)
-        f = Frame("updated", self.next_uid())
-        self.all_frames.append(f)
-        for ti, v in sts:
-            f.states.setdefault(ti, []).append(make_state(ti, v))
-        states = [x for lst in f.states.values() for x in lst]
         in_ctx = bool(actor.stack)
         left = None
         body_exc = None
         pushed = False
         try:
-            with ctx.updated(*states):
+            with cm:
                 actor.stack.append(f)
                 pushed = True
                 try:
@@ -1238,8 +1314,8 @@ class Engine:
         if len(self.actors) >= 2:
             sim.nontrivial = True
 
-    def spawn_from_double(self, double, held):
-        """A disposable's __aenter__ spawns a background task into the scope that is being entered."""
+    def spawn_from_double(self, double, held, when="enter"):
+        """A disposable's __aenter__ / __aexit__ spawns a background task into the scope that is being entered / left."""
         from haiway import ctx
         sim = self.sim
         frame = next((f for f in self.frames if f.uid == double.scope_uid), None)
@@ -1276,7 +1352,7 @@ class Engine:
         if frame is not None and frame.is_async:
             frame.tasks.append(child)
             child.spawned_in = frame
-        sim.stats["disposable_spawned_in_enter"] += 1
+        sim.stats[f"disposable_spawned_in_{when}"] += 1
         sim.event("spawn", owner.aid, child.aid, 0)
         sim.nontrivial = True
 
@@ -1488,6 +1564,32 @@ class Engine:
         if raised:
             sim.stats["check_cancellation_raised"] += 1
             raise asyncio.CancelledError()
+
+    def op_check_cancel_thread(self, actor):
+        """ctx.check_cancellation() called from a worker thread in a copy of the actor's context (what a blocking function run
+        through an executor does).  No task runs in that thread, so nobody can have asked 'the current task' to cancel."""
+        import contextvars
+        import threading
+        from haiway import ctx
+        sim = self.sim
+        out = {}
+
+        def probe():
+            try:
+                ctx.check_cancellation()
+                out["raised"] = None
+            except BaseException as exc:  # noqa: BLE001
+                out["raised"] = exc
+
+        snapshot = contextvars.copy_context()
+        th = threading.Thread(target=snapshot.run, args=(probe,))
+        th.start()
+        th.join()  # (joined at once: the thread is not a scheduling dimension here)
+        sim.stats["check_cancellation_in_worker_thread"] += 1
+        sim.event("check-cancel-thread", actor.aid, type(out.get("raised")).__name__)
+        if self.cfg["cancel_rules"] and out.get("raised") is not None:
+            sim.fail("check-cancellation-spurious", f"ctx.check_cancellation() called in a worker thread (no task there) raised {out['raised']!r}",
+                     where="worker-thread")
 
     async def op_try(self, actor, op):
         sim = self.sim
@@ -1836,7 +1938,15 @@ class Engine:
                     return
             else:
                 wide = self.descendants(f, [], ("no", "maybe"))
-                if f.entered and f.exit_returned and all(d.exit_returned for d in wide):
+
+                def has_unentered(g):
+                    # a scope object that was created (and so registered) under g but whose entering was never even attempted was
+                    # never left either (an attempted entry that failed does count as left)
+                    return any((not c.entered and not c.exit_returned and c.parent_completed_at_registration != "yes")
+                               or ((c.entered or c.exit_returned) and has_unentered(c))
+                               for c in g.children)
+
+                if f.entered and f.exit_returned and all(d.exit_returned for d in wide) and not has_unentered(f):
                     sim.fail_post("completion-never", f"scope #{f.uid} and its nested scopes {[d.uid for d in wide]} were all left "
                                   f"but its completion callback never fired",
                                   late_children=int(any(c.parent_completed_at_registration == "yes" for c in f.children)))
@@ -1976,14 +2086,16 @@ PROPS = {
                "one case = generated tree of nested ctx.scope (sync/async, with state-yielding disposables) / ctx.updated blocks over a "
                "family of 5 state types (defaultable, required attribute, subclass, two specialisations of a generic) with probes "
                "(ctx.state with and without explicit default, in both orders) before/inside/between/after + completion order of "
-               "concurrently entered disposables; distinct = event-log digest incl. program; non-trivial = at least two blocks"),
+               "concurrently entered disposables; scope and update objects may be created before the enclosing block is entered "
+               "(hoisted) and entered inside it; distinct = event-log digest incl. program; non-trivial = at least two blocks"),
     "C02": _mk("C02", "fault_enumeration",
                {"quick": [("plain", 90000), ("disp", 60000), ("sweep", 3000), ("disp-sweep", 2400), ("cancel", 36000)],
                 "thorough": [("plain", 1800000), ("disp", 1200000), ("sweep", 60000), ("disp-sweep", 48000), ("cancel", 720000), ("plain-deep", 360000), ("disp-deep", 240000), ("sweep-deep", 12000), ("disp-sweep-deep", 9600), ("cancel-deep", 144000)]},
                "C01 programs + faults: body raise (Exception/BaseException), failing spawned tasks, disposable enter/exit failures, "
                "external cancel at a random loop iteration or swept over EVERY iteration of the fault-free twin; around every block "
-               "the state answers, probe-log scope prefix and owning task group are compared before/after; non-trivial = at least "
-               "one fault fired or two blocks nested", sweeps=("sweep", "disp-sweep")),
+               "the state answers, probe-log scope prefix and owning task group are compared before/after; scopes may carry completion "
+               "callbacks that raise or use the library themselves; non-trivial = at least one fault fired or two blocks nested",
+               sweeps=("sweep", "disp-sweep")),
     "C03": _mk("C03", "exploration", {"quick": [("plain", 90000)], "thorough": [("plain", 1800000), ("plain-deep", 360000)]},
                "2..4 actors (ctx.spawn / loop.create_task) each running its own nesting of scopes/updates with a pause between any "
                "two ops; every actor probes after every op against its own shadow stack; non-trivial = at least two actors"),
@@ -1991,7 +2103,8 @@ PROPS = {
                {"quick": [("plain", 100000), ("cancel", 40000), ("sweep", 3000), ("disp", 30000)],
                 "thorough": [("plain", 2000000), ("cancel", 800000), ("sweep", 60000), ("disp", 600000), ("plain-deep", 480000), ("cancel-deep", 192000), ("sweep-deep", 12000), ("disp-deep", 120000)]},
                "programs with up to 4 spawned tasks (nested spawns, failing, plain/held gates), body return/raise/cancel; at the instant "
-               "`async with` returns every attributed task must be done; deadlock detector; non-trivial = at least two actors",
+               "`async with` returns every attributed task must be done (incl. tasks started by disposables while entering or exiting); "
+               "deadlock detector; non-trivial = at least two actors",
                sweeps=("sweep",)),
     "C07": _mk("C07", "fault_enumeration",
                {"quick": [("plain", 90000), ("cancel", 60000), ("sweep", 3600), ("disp-sweep", 1200)],
@@ -2004,16 +2117,19 @@ PROPS = {
                {"quick": [("plain", 72000), ("faults", 90000), ("sweep", 3000)],
                 "thorough": [("plain", 1440000), ("faults", 1800000), ("sweep", 60000), ("plain-deep", 288000), ("faults-deep", 360000), ("sweep-deep", 12000)]},
                "scopes with 0..4 disposable doubles (none/one/several states; ok/raise/suspend in enter and exit), Disposables or plain "
-               "iterable, body return/raise/cancel, all completion orders; non-trivial = a disposable fault fired or two blocks",
+               "iterable, __aenter__/__aexit__ returning coroutines or plain awaitables, explicit state of the same type as a yielded one, "
+               "body return/raise/cancel, all completion orders; non-trivial = a disposable fault fired or two blocks",
                sweeps=("sweep",)),
     "C09": _mk("C09", "exploration", {"quick": [("plain", 120000), ("faults", 60000)],
                                       "thorough": [("plain", 2400000), ("faults", 1200000), ("plain-deep", 480000), ("faults-deep", 240000)]},
                "scope trees (<=6 nodes, sync/async callbacks on every node) whose children run in the parent's task, in ctx.spawn tasks "
                "or in plain create_task tasks that may outlive the parent or create scopes after the parent completed; every "
                "linearisation of enter/exit via pauses and gates; profile 'faults' adds body raise, failing children, failing "
-               "disposables and one external cancel so that every exit path is covered; non-trivial = at least two scopes"),
+               "disposables and one external cancel so that every exit path is covered; callbacks may raise or open a scope themselves; "
+               "scope objects may be prepared before their parent block is entered (and never entered); non-trivial = at least two scopes"),
     "C10": _mk("C10", "exploration", {"quick": [("plain", 150000)], "thorough": [("plain", 3000000), ("plain-deep", 600000)]},
-               "scope trees with record ops of two metric types (merge replace/sum/concat(non-commutative)/raising) at any position, in "
+               "scope trees (scope objects possibly prepared outside their parent) with record ops of two metric types, one with a default that "
+               "is not neutral for the merges (merge replace/sum/concat(non-commutative)/raising) at any position, in "
                "concurrently running actors, outside scopes and after completion; reference left fold per scope and depth-first "
                "merged views; non-trivial = a record inside a nested scope or two actors"),
     "C19": _mk("C19", "exploration", {"quick": [("plain", 150000)], "thorough": [("plain", 3000000), ("plain-deep", 600000)]},
